@@ -153,7 +153,7 @@ func init() {
 	}
 	// a small shared key space so that the two patches collide
 	prof := gen.Hostile().With(func(p *gen.Profile) {
-		p.Keys = []string{"a", "b", "c", "x<y", "", "a~1b"}
+		p.Keys = []string{"a", "b", "c", "x<y", "", "a~1b", "\x7f\x01"}
 		p.Width = 3
 		p.ScalarBias = 35
 	})
